@@ -61,6 +61,7 @@ def options(rng, lang_doc):
                          '\\newcommand{\\dd}{X}\\footnote{defs foot}\n']),
         extr=rng.choice(['', '', '', '', 'footnote', 'section,caption']),
         repl=rng.choice([None, None, None, ['und so & x'],
+                         ['so dass & sodass immer noch', 'zum Beispiel & z. B.'],
                          ['a b & c\\d', 'x & '], ['# c', '& y', 'qq & w w w']]),
         unkn=rng.random() < 0.05, thresh=rng.choice([0, 1, 2, 3, 5]))
 
